@@ -14,6 +14,7 @@ class Row(models.Model):
     dd = models.DateField(null=True)
     tt = models.TimeField(null=True)
     du = models.DurationField(null=True)
+    g = models.CharField(max_length=40, null=True)      # GUIDs kept as text (not exercised through Django)
 
     class Meta:
         app_label = "djapp"
